@@ -294,11 +294,22 @@ def is_css_name(name):
         return False
 
 
+def lookup_raises_only_lookuperror(name):
+    import css_parser.codec  # noqa: F401
+    try:
+        codecs.lookup(name)
+    except LookupError:
+        return True
+    except Exception:  # noqa
+        return False
+    return True
+
+
 def same_codec_knowledge(name):
     if name is None:
         return True
-    if not all(32 <= ord(ch) < 127 for ch in name):
-        return False          # codecs.lookup raises UnicodeError / ValueError for such names: outside the model
+    if not lookup_raises_only_lookuperror(name):
+        return False          # codecs.lookup raises UnicodeError (surrogate) / ValueError (NUL): outside the model
     if python_knows(name) == "css":
         return True           # every spelling of the codec's own name: modelled by Codec.is_css
     return model_knows(name) == python_knows(name)
@@ -876,7 +887,10 @@ def model_scope(c):
         m = RULE.match("".join(c["chunks"]))
         if m:
             names.append(m.group(1))
-    return all(same_codec_knowledge(n) for n in names) and not (c.get("enc") is not None and is_css_name(c["enc"]))
+    # an explicit css-spelled argument: the one-shot DECODER then calls itself once through codecs.getdecoder (not modelled);
+    # the encoders reject it right away (modelled)
+    return all(same_codec_knowledge(n) for n in names) and not (
+        c["k"] == "D" and c.get("enc") is not None and is_css_name(c["enc"]))
 
 
 def scope_reasons(cases):
@@ -903,8 +917,8 @@ def scope_reasons(cases):
             for n in names:
                 if n is None or same_codec_knowledge(n):
                     continue
-                if not all(32 <= ord(ch) < 127 for ch in n):
-                    why = "encoding name with a character outside printable ASCII (codecs.lookup raises UnicodeError/ValueError)"
+                if not lookup_raises_only_lookuperror(n):
+                    why = "encoding name for which codecs.lookup raises UnicodeError/ValueError (surrogate, NUL)"
                 else:
                     why = "encoding name CPython knows but the Gallina table does not (or differently): %s" % (python_knows(n),)
                 break
@@ -1045,15 +1059,15 @@ TRUSTED = [
     "incdec_chunking_concrete / incenc_chunking_concrete / decode_encode_detected_onebyte are theorems about them",
     "correspondence harness harness/props/c14.py (generators, canonicalisation: exception class -> enum; the result of every "
     "call up to and including the raising one is compared); CodecPyLib.lower (per-character str.lower table generated from the interpreter, Gen/PyTables.v) for encoding.lower()",
-    "modelled by hand, not verified: decode, encode, IncrementalDecoder.decode, IncrementalEncoder.encode, StreamWriter.encode "
-    "(Codec.v)",
+    "modelled by hand, not verified: decode, encode, IncrementalDecoder.decode, IncrementalEncoder.encode, StreamWriter.encode, "
+    "StreamReader.decode together with the read loop of codecs.StreamReader (Codec.v)",
 ]
 ASSUME = [
     "Print Assumptions for every theorem of props/C14.v: see coverage.print_assumptions",
     "errors argument fixed per run of the underlying codec (the theorems quantify over any codec satisfying the hypotheses); "
     "the model correspondence uses errors='strict'",
     "getstate/setstate/reset are outside the property's observation points; StreamWriter.encode is modelled (enc_step with "
-    "final=False) and compared per write; StreamReader is not (stateless-retry API without end-of-stream notification, see "
-    "design_notes/C14.md)",
+    "final=False) and compared per write; StreamReader is modelled as accumulate + stateless decode without final "
+    "(sr_step) and compared per decode call; it cannot equal the one-shot decoder, the proved statement is the prefix property",
     "inverse oracle: texts starting with U+FEFF or U+0000 excluded (a leading U+FEFF is the byte-order mark)",
 ]
